@@ -154,6 +154,22 @@ def laws(text, r: random.Random, flags):
                 ok = False
         if ok:
             out.append(("d-order-independent", " / ".join(f"set {p} {v}" for _, p, v in sets), None, sets, "all-orders"))
+        plain = [p for p in chosen if len(p) == 1]
+        if len(plain) >= 2 and r.random() < 0.5:
+            chosen = plain
+            # both paths first receive the same set literal (the same VALUE text), then one member of each is set: still
+            # two sets on different existing paths
+            lit = r.choice(["{ k = 1; }", "{ k = 1; j = [ 1 2 ]; }", "{\n  k = 1;\n}"])
+            pa, pb = chosen[0], chosen[1]
+            prefix = [("set", E.enc(pa, 0), lit), ("set", E.enc(pb, 0), lit)]
+            below = [("set", E.enc(pa + ("k",), 0), "5"), ("set", E.enc(pb + ("k",), 0), "6")]
+            m = copy.deepcopy(model)
+            try:
+                for s_ in prefix + below:
+                    m.apply(*s_)
+                out.append(("d-order-independent", "same literal at two paths, then " + " / ".join(f"set {p} {v}" for _, p, v in below), prefix, below, "all-orders-after-prefix"))
+            except (A.Refuse, A.Unspecified):
+                pass
     return out
 
 
@@ -179,6 +195,13 @@ def check_law(text, law, same_object):
                 return [(name + ":invalid", {"desc": desc, "after": b[:400]})]
             if A.flat(va.core["set"]) != A.flat(vb.core["set"]) or [A.flat(l) for l in va.layers] != [A.flat(l) for l in vb.layers]:
                 return [(name, {"desc": desc, "original": text[:400], "after": b[:400]})]
+        elif how == "all-orders-after-prefix":
+            results = {}
+            for perm in itertools.permutations(seq_b):
+                results[tuple(p for _, p, _ in perm)] = _apply_seq(text, list(seq_a) + list(perm), same_object)
+            if len(set(results.values())) != 1:
+                vals = list(results.items())
+                return [(name, {"desc": desc, "order1": list(vals[0][0]), "text1": vals[0][1][:400], "order2": list(vals[-1][0]), "text2": vals[-1][1][:400]})]
         elif how == "all-orders":
             results = {}
             for perm in itertools.permutations(seq_b):
